@@ -94,6 +94,49 @@ fn run_stream(kind: &Kind, stream: &[u8], nsym: u8, mode: &Mode) -> Obs {
     Ok(o)
 }
 
+/// long streams (a counter of items narrower than usize - SuperMinHash keeps an item rank - shows after 2^16 items): 70 000
+/// distinct items forward item-wise, reversed item-wise, forward with every third item repeated, as one slice, and as two
+/// slices, must give one sketch
+fn long_streams(kind: &Kind) -> (u64, Option<String>) {
+    let n = 70_000u64;
+    let fwd: Vec<u64> = (1..=n).collect();
+    let rev: Vec<u64> = fwd.iter().rev().cloned().collect();
+    let rep: Vec<u64> = fwd.iter().flat_map(|x| if x % 3 == 0 { vec![*x, *x] } else { vec![*x] }).collect();
+    let run = |plan: Vec<Op>| -> Obs {
+        let mut inst = (kind.build)();
+        for op in &plan {
+            if let Applied::Failed(e) = inst.apply(op) {
+                return Err(format!("op failed: {}", e));
+            }
+        }
+        let mut o = inst.observe()?;
+        if kind.name.starts_with("SetSketcher") {
+            o.truncate(size_of(kind) + 2);
+        }
+        Ok(o)
+    };
+    let items = |v: &[u64]| -> Vec<Op> { v.iter().map(|x| Op::Item(*x)).collect() };
+    let plans: Vec<(&str, Vec<Op>)> = vec![
+        ("reversed, item by item", items(&rev)),
+        ("every third item repeated", items(&rep)),
+        ("one slice", vec![Op::Slice(fwd.clone())]),
+        ("two slices", vec![Op::Slice(fwd[..40_000].to_vec()), Op::Slice(fwd[40_000..].to_vec())]),
+    ];
+    let reference = run(items(&fwd));
+    let mut execs = 1;
+    for (name, plan) in plans {
+        if kind.has_end && name == "two slices" {
+            continue; // the densified sketchers finish at the end of a slice call
+        }
+        execs += 1;
+        let o = run(plan);
+        if o != reference {
+            return (execs, Some(format!("{}: the stream of items 1..=70000 gives a different sketch when presented as '{}' than forward item by item", kind.name, name)));
+        }
+    }
+    (execs, None)
+}
+
 fn base_name(kind: &Kind) -> String {
     kind.name.split(" m=").next().unwrap_or(&kind.name).to_string()
 }
@@ -348,6 +391,18 @@ pub fn run(ctx: &Ctx) -> i32 {
         }
         per_kind.push(json!({"sketcher": kind.name, "executions": o.execs, "groups": o.groups, "distinct_sketches": o.distinct_obs}));
     }
+    // long streams on the sketchers of size 64
+    {
+        let long_kinds: Vec<&Kind> = kinds.iter().filter(|k| size_of(k) == 64).collect();
+        let res: Vec<(u64, Option<String>)> = long_kinds.par_iter().map(|k| long_streams(k)).collect();
+        for ((n, bad), k) in res.into_iter().zip(long_kinds.iter()) {
+            execs += n;
+            if let Some(w) = bad {
+                ctx.violation(&format!("set-semantics:{}", base_name(k)), &w, json!({"kind": "long-stream", "sketcher": k.name}));
+            }
+        }
+        println!("C04 long streams: {} sketcher kinds", long_kinds.len());
+    }
     let n_res: u64 = ctx.pick(1 << 20, 1 << 23);
     execs += resolution_check(ctx, n_res);
     // orders and repetitions of {x, y} where x is a rounding witness of the f32 SuperMinHash (see c03::same_set_streams)
@@ -366,7 +421,7 @@ pub fn run(ctx: &Ctx) -> i32 {
         "exhaustive": true,
         "evaluations": execs,
         "distinct_nontrivial": distinct,
-        "rule": "for SuperMinHash f32/f64, SuperMinHash2 u32/u64, SetSketcher u8/u16/u32 (3 parameter sets) and both densified sketchers f32/f64 (Fnv hasher; plus no-op-hasher kinds where item 0 hashes to 0), sizes {1,2,3,7,64} (+5,16,200) - and, with streams of length <= 2 (3) over two items and the burst, size 65537 (65535, 65536, 65537) -: every stream of length 1..5 (6) over 5 (6) symbols (4-5 items and a burst of 12 fresh items), i.e. every order and every repetition, under item-wise calls, every chunking into slice calls (all 2^(L-1) cut patterns) and item-wise calls interleaved with empty slices; densified sketchers: item-wise + end_sketch versus one slice; all streams with the same set of distinct items must give the bit-identical observation (all views); stored hashes must be hashes of streamed items; the random value deciding the owner of a position must be distinct for all 2^20 (2^23) items of a block (size-1 sketches, hook H5 for SuperMinHash2); for m in {4,8,12,16,32}: 7 repeating / reordering streams of {x,y} against [x,y] for every x among up to 48 rounding witnesses of the f32 SuperMinHash (items with a single-item value that is an exact integer, found by scanning 2^20 (2^22) items) and y from a 64-item block; distinct = distinct sketches (one per item set and kind)",
+        "rule": "for SuperMinHash f32/f64, SuperMinHash2 u32/u64, SetSketcher u8/u16/u32 (3 parameter sets) and both densified sketchers f32/f64 (Fnv hasher; plus no-op-hasher kinds where item 0 hashes to 0), sizes {1,2,3,7,64} (+5,16,200) - and, with streams of length <= 2 (3) over two items and the burst, size 65537 (65535, 65536, 65537) -: every stream of length 1..5 (6) over 5 (6) symbols (4-5 items and a burst of 12 fresh items), i.e. every order and every repetition, under item-wise calls, every chunking into slice calls (all 2^(L-1) cut patterns) and item-wise calls interleaved with empty slices; densified sketchers: item-wise + end_sketch versus one slice; all streams with the same set of distinct items must give the bit-identical observation (all views); stored hashes must be hashes of streamed items; the random value deciding the owner of a position must be distinct for all 2^20 (2^23) items of a block (size-1 sketches, hook H5 for SuperMinHash2); for the kinds of size 64: the stream of items 1..=70000 forward, reversed, with repetitions, as one slice and as two; for m in {4,8,12,16,32}: 7 repeating / reordering streams of {x,y} against [x,y] for every x among up to 48 rounding witnesses of the f32 SuperMinHash (items with a single-item value that is an exact integer, found by scanning 2^20 (2^22) items) and y from a 64-item block; distinct = distinct sketches (one per item set and kind)",
         "rounding_witness_streams": wdetails,
         "sketcher_kinds": kinds.len(),
         "item_set_groups": groups,
